@@ -91,6 +91,26 @@ def _pow2_exp(m):
     return None
 
 
+def _seq_units(e):
+    """elements of a Seq(Int) term that is a concatenation of unit sequences, else None"""
+    out = []
+    stack = [e]
+    while stack:
+        t = stack.pop()
+        if not z3.is_app(t):
+            return None
+        k = t.decl().kind()
+        if k == z3.Z3_OP_SEQ_CONCAT:
+            stack.extend(reversed(t.children()))
+        elif k == z3.Z3_OP_SEQ_UNIT:
+            out.append(t.arg(0))
+        elif k == z3.Z3_OP_SEQ_EMPTY:
+            continue
+        else:
+            return None
+    return out
+
+
 class OpsMixin:
     # ------------------------------------------------------------------ conversions
     def mkint(self, c):
@@ -567,6 +587,11 @@ class OpsMixin:
             return list(v.items.keys())
         if isinstance(v, SSet):
             return list(v.items)
+        if isinstance(v, SSeq):
+            # a sequence literally built from units (bytes(<generator over a static iterable>)): its items are static
+            units = _seq_units(v.e)
+            if units is not None:
+                return [self.wrap_int(u) for u in units]
         return None
 
     def static_items_req(self, v):
